@@ -112,3 +112,14 @@ PROPS['C10'] = {
     'assumptions': A_COMMON,
     'not_decided': ['transfer distance = minimum Hamming distance (minTransferDistRecur)', 'TBE >= FBP and range lemmas', 'order independence of floating-point sums (A-FP)'],
 }
+
+PROPS['C07'] = {
+    'level': 'proof', 'claimed': True,
+    'claim': 'unbounded proof, with symbolic thresholds (so values equal to the threshold are cases of the proof), that the list of branches handed to RemoveEdges by CollapseShortBranches / CollapseLowSupport / CollapseTopoDepth is exactly the set of branches satisfying the documented criterion (length <= l; support present and < s; min <= topological depth <= max): every listed branch satisfies it and every branch satisfying it is listed; collapse by support never asks for tip removal',
+    'level_note': 'relative to the assumed contract of Edges (elements non-nil); RemoveEdges itself (contraction, skip rules for tips and root-adjacent branches) and resolveRecur are not yet under contract, so "removes exactly" is decided for the selection, not yet for the contraction',
+    'packages': ['./tree', './hashmap'],
+    'functions': ['(*tree.Tree).CollapseLowSupport', '(*tree.Tree).CollapseShortBranches', '(*tree.Tree).CollapseTopoDepth'],
+    'trusted_base': TB_COMMON,
+    'assumptions': A_COMMON,
+    'not_decided': ['RemoveEdges contraction step and its skip rules', 'Resolve / resolveRecur', 'absent lengths (-1) are <= any non-negative threshold: the criterion is applied to the stored value as the code documents'],
+}
